@@ -1164,14 +1164,29 @@ class Instrs(CallsMixin):
                         called.add('invoke ' + str(c2.get('iface')) + '.' + str(c2.get('invoke')))
                     elif (c2.get('fn') or {}).get('k') == 'func':
                         called.add(normfn(c2['fn']['name']))
+        anyhit = False
         for pat in self.cx.call_patterns:
             if not any(pat in nm for nm in called):
                 continue
+            anyhit = True
             k = 'calls:' + pat
             old = st.ghost.get(k, z3.IntVal(0))
             nv = z3.Int(fresh_name('ncalls'))
             st.assume(nv >= old)
             st.ghost[k] = nv
+            ks = 'seq:' + pat
+            olds = st.ghost.get(ks, z3.IntVal(0))
+            ns = z3.Int(fresh_name('lastseq'))
+            st.assume(ns >= olds)
+            st.ghost[ks] = ns
+        if anyhit:
+            oldq = st.ghost.get('seqno', z3.IntVal(0))
+            nq = z3.Int(fresh_name('seqno'))
+            st.assume(nq >= oldq)
+            for pat in self.cx.call_patterns:
+                if 'seq:' + pat in st.ghost:
+                    st.assume(nq >= st.ghost['seq:' + pat])
+            st.ghost['seqno'] = nq
 
     def auto_invariants(self, st, fr, h, phis):
         """candidate bounds for counting loops; each is (name, fn(state) -> formula)"""
